@@ -23,7 +23,8 @@ func init() {
 			"NOT decided: general nil-dereference and index-out-of-range safety, recursion depth, memory use, and the internals of go/scanner, go/parser, go/printer, reflect." +
 			" R12 compiled Matcher/Replacer fields never receive nil; R13 emptied comment groups are dropped from File.Comments (F14); R5 also: a function literal of Run that assigns its named error result builds on the current value." +
 			" R14 a comparison handed to diff.Difference that itself diffs lists is made once per pair (F16)." +
-			" R15 no cycle in the call graph of package main, the library API, the section splitter and internal/text. R16 in augmenter.Apply a '...' is put into a statement or expression slot only behind cursor.Index() >= 0 (or, for an expression, a for header). R1 also accepts reader-governed loops, chain walks over links set once at creation, and range-over-int.",
+			" R15 no cycle in the call graph of package main, the library API, the section splitter and internal/text. R16 in augmenter.Apply a '...' is put into a statement or expression slot only behind cursor.Index() >= 0 (or, for an expression, a for header). R1 also accepts reader-governed loops, chain walks over links set once at creation, and range-over-int." +
+			" R17 every nil return of a pointer-returning method of the metavariable parser is reached only through a call that fails the parser or through the nil test of another such method's result.",
 		Trusted:     append([]string{"go/scanner.Scanner.Scan keeps returning token.EOF once the input is exhausted", "bufio.Scanner.Scan terminates"}, commonTrusted...),
 		Assumptions: commonAssumptions,
 	})
@@ -51,6 +52,7 @@ func runC08(r *an.Run) {
 	recursiveComparisonsMemoised(r, "R14-recursive-comparisons-are-made-once")
 	noRecursionInTheFrontEnd(r, "R15-no-recursion-outside-the-tree-walkers")
 	loneElisionRejected(r, "R16-a-lone-elision-is-rejected")
+	nilMeansFailed(r, "R17-a-nil-from-the-metavariable-parser-means-it-failed")
 }
 
 func tokenEOF(r *an.Run) int64 {
